@@ -131,6 +131,13 @@ def run(ck):
     # ---- (iii) random compound units; equivalence and congruence
     allnames = sp + [rng.choice(prefixes) + rng.choice(mult) for _ in range(200)]
     allnames = [s for s in allnames if regk.multiplicative(ureg, ureg.get_name(s)) and not ureg.get_name(s).startswith("delta_")]
+    # compound units are drawn from units with rational factors: the 29 float-factor units (planck_*, alpha-dependent …)
+    # overflow float arithmetic when raised to powers inside the Fraction registry (OverflowError in Fraction.__rpow__);
+    # they stay covered by the single-unit pair streams above
+    def rational(n):
+        f, _ = ureg._get_root_units(regk.mkuc(ureg, {n: F(1)}))
+        return isinstance(f, (int, F)) and not isinstance(f, bool)
+    allnames = [s for s in allnames if rational(s)]
 
     # a negative constant (electron_g_factor, …) raised to a fractional power has no real value, so the
     # real-valued conversion the property speaks of does not exist: fractional exponents are drawn
